@@ -39,16 +39,16 @@ CHECKS = {
             "operations incl. calls that raise): state = reflection snapshot of the document, of every mutable module-level container and class attribute of kernpy, and of every "
             "option object handed to a call. Every op, every op twice and ALL ordered op pairs (chained on one live object) must return what a fresh import returns; two imports must be "
             "indistinguishable; module state and option objects must be unchanged. On the current tree every call is a self-loop, so the reachable state set is {s0} and the result covers "
-            "histories of any length; a state-changing op would be explored by BFS to depth 12.",
+            "histories of any length; a state-changing op would be explored by BFS to depth 12. In addition all ordered triples over a reduced set of 16 operations on one live object, and partial / nested iteration operations (with a watchdog for operations that do not return).",
             'Trusted: kv/snapshot.py reflection walk (no field names hard-coded; Node.NextID excluded). Graph output compared modulo node identifiers.', T_HIST, 'DESIGN.md §3 C14'),
     'C19': ("Kern-only documents (every row sequence to length 4/3, thorough 5/4, over data, barline, null, clef, split, join; <=1/2 deviations of a backbone) cut at EVERY subset of their "
             "barline rows (<=5 cuts) with both separators; concat's document must equal the import of the joined text (three views), one pair per fragment, pairs consecutive, last 'to' == "
-            "measure count, and exporting pair i must give exactly the data lines of fragment i.",
+            "measure count, and exporting pair i must give exactly the data lines of fragment i. Blank lines inside fragments and scores with a spine terminated early are included; the measure index is re-read after the exports.",
             'Fragment data lines are compared in normal form taken from kernpy\'s own full export (C03).', T_PATHS + ' x exhaustive cut sets', 'DESIGN.md §3 C19'),
     'C07': ("Every row sequence up to length 5/4/4/3 (thorough 6/5/5/4) over data, barline, null interpretation, clef row, null data, split, join for 1-3 kern spines (and kern+text exported with "
             "spine_types=['**kern']) plus all <=2 (3) deviations of a backbone score; for each document EVERY range 1<=a<=b<=M, (a,None), (None,b) and eight out-of-range shapes. Oracle: the "
             "full export tiled by its barline rows - data lines of the range byte-identical and in order, opening/closing barline, single-measure exports partition the data lines, "
-            "iteration yields 1..M, ValueError for the out-of-range shapes.",
+            "iteration yields 1..M, ValueError for the out-of-range shapes. Also blank-line variants, long scores (about 30 measures, all 465 ranges), and concurrent / abandoned / nested iterations of the same document.",
             'Oracle derived from kernpy\'s own full export (C03 decides that export); indifferent to whether an empty leading measure is numbered.', T_PATHS, 'DESIGN.md §3 C07'),
     'C08': ("Every row sequence up to length 6/5/5/4 over data, barline, uniform clef/key/time rows, first-column-only clef/time rows, split, join for 1-2 kern spines (thorough: 3 spines, "
             "kern next to text) x every measure range (15k quick / 755k thorough excerpts). Each excerpt is labelled by the model's state at its first row; in the claimed core "
@@ -58,21 +58,21 @@ CHECKS = {
     'C10': ("Pitch level, exhaustive: 7 clefs x 5 octave marks x 7 letters x 5 accidentals x octaves 0..8 through ClefFactory/pitch_to_gkern_string (G2 identity, one-step translation "
             "chained over the whole range, bottom line -> 'e', accidental carried over, octave marks irrelevant, bottom line = the staff's musical bottom line) and 7x3-5x8 one-note "
             "document grids for all accidental spellings incl. natural and display suffix. Document level: every enabled row sequence to depth 3-5 with single-column clef "
-            "changes, splits, joins, chords and rests; each agnostic cell is compared with the model's clef in force for that cell.",
+            "changes, splits, joins, chords and rests; each agnostic cell is compared with the model's clef in force for that cell. The relation is also checked under three category filters and through one Exporter instance used for kern, akern, kern, aekern in a row.",
             'Trusted: kv/pitchref.py staff-step arithmetic; kv/model.py signature context (inherited through parent links). Five clefs have a non-musical bottom line pinned by the tests: known findings.',
             T_GRID + ' + ' + T_PATHS, 'DESIGN.md §3 C10'),
     'C13': ("15-88 documents (>=2 spines, >=2 types, split, clef) x every subset of spine ids x every subset of present types x 23 category selections x 6 encodings, each compared "
             "with the composition of the three reference transforms (which commute by construction), plus one explicit-default spelling of an option per case that must be "
-            "string-identical to omitting it.",
+            "string-identical to omitting it. Plus the options-object interface with one ExportOptions instance reused for a smaller document first, and skeletons with a spine terminated early.",
             'Trusted: kv/model.py reference exporter, kv/pitchref.py; leniencies of DESIGN §2.1.',
             'exhaustive enumeration of the option product on a document family against a reference exporter', 'DESIGN.md §3 C13'),
     'C04': ("For every document of a bounded space (all row sequences to depth 3/4 after a clef row, 9-20 header configurations, <=1/2 deviations of a backbone) and each of 8 category "
             "selections that keep durations or pitches, all six encodings are exported and related: plain == extended minus separators (three pairs), basic == full with the signifier "
-            "group removed note by note (chord sizes from the model), headers == '**'+prefix+type, non-note cells identical in all six.",
+            "group removed note by note (chord sizes from the model), headers == '**'+prefix+type, non-note cells identical in all six. The same relations are checked on measure-range exports; a model-based clause forbids any signifier of the abstract note in a basic cell.",
             'Relational oracle between kernpy\'s own outputs; kv/model.py contributes only cell kinds, chord sizes and row alignment.', T_PATHS, 'DESIGN.md §3 C04'),
     'C05': ("37-300 documents containing every cell kind and category x every distinct selected set denoted by the 705x704 (include<=2|None, exclude<=2) pairs (4368 sets), complements of "
             "singles and pairs, and all 2^16 unions of top-level categories; each extended export is compared with T_cat applied to the abstract grid; kernpy's own selected-set "
-            "computation is re-asserted through the option parser.",
+            "computation is re-asserted through the option parser. Reuse of one include/exclude OBJECT for consecutive calls and the options-object interface with token_categories reassigned between exports are driven as well.",
             'Trusted: kv/model.py T_cat, kv/catref.py. Leniency: a chord left with only null notes makes its row optional; chord notes may show signifiers of their chord.',
             'exhaustive enumeration of the option grid (reduced to distinct selected sets) on a document family, against a reference exporter', 'DESIGN.md §3 C05'),
     'C01': ("Token level: every abstract note of the stated alphabets (9 durations x 2-5 pitches x 8 accidentals x every signifier set of size <=2 from 37 signifiers; rests; chords) in "
@@ -84,15 +84,15 @@ CHECKS = {
     'C06': ("Every enabled row sequence up to depth 3-5 (data, barline, every split, every join, every single termination) for 1-4 spines, and for each resulting document every subset "
             "of spine ids (ascending, descending, duplicated, set, tuple), every subset of the header types present and every combination; each export must be string-identical to "
             "kernpy's own full export with the columns of the unselected spines (per the model's column->spine map) deleted and all-null lines dropped; the spine-type query must "
-            "equal the projected header line.",
+            "equal the projected header line. Includes a twelve-spine document (two-digit spine ids) with singles, pairs and complements.",
             'Trusted: column->spine map of kv/model.py (itself checked against the tree in C02).', T_PATHS, 'DESIGN.md §3 C06'),
     'C17': ("Every enabled row sequence up to depth 3-5 over data, interpretation, field-comment, barline, global-comment rows and every split/join/termination, with and without "
             "pre-header comments; for each document the full listing, 37 single-category filters and a rotating eighth of 143 larger filters are compared with the model's depth-first "
-            "order and documented categories; unique listings, frequencies, encodings listings, comment query (with key / clear) and monophony are derived and compared.",
+            "order and documented categories; unique listings, frequencies, encodings listings, comment query (with key / clear) and monophony are derived and compared. The previously checked document stays alive and is queried again after the current one (two documents in one process).",
             'Trusted: kv/model.py depth-first order, kv/alphabet.py documented categories, kv/catref.py closure.', T_PATHS, 'DESIGN.md §3 C17'),
     'C03': ("Every document of a bounded space (all row sequences up to depth 3/4 over data, interpretation, comment, barline, null, split, join, global-comment rows for 9-24 header "
             "configurations; all <=2 (3) edits of a backbone score; every corpus member in every column) is imported and exported in plain and extended form, and the result is "
-            "compared cell by cell with a reference exporter that works on the generator's abstract description of each cell (never on kernpy's parse).",
+            "compared cell by cell with a reference exporter that works on the generator's abstract description of each cell (never on kernpy's parse). Every second document is exported after filtered / basic exports in the same process (non-initial process state); long (66-123 rows) and twelve-spine documents are included.",
             'Trusted: kv/alphabet.py abstract corpora, kv/model.py reference exporter. Leniencies (null placeholder spelling, component order) in DESIGN §2.1.',
             T_PATHS, 'DESIGN.md §3 C03'),
     'C02': ("Lock-step refinement of kernpy's importer against the SpineModel: explicit-state BFS to closure over the merged (layout, implementation fingerprint) "
@@ -100,7 +100,7 @@ CHECKS = {
             "join incl. runs of 3 and two runs in a row, every single termination, terminate-all) replayed by importing the history and comparing the whole tree "
             "(stage per line, node per cell, parent, header, spine id, literal text, children order, public spine ids/types/token cells); in every reached state each row "
             "kind is offered with every kind of surplus cell (must raise). Plus unmerged enumeration of all operator sequences to depth 4/5 and literal cells (quote, comma, "
-            "space, non-ASCII) in every column and position.",
+            "space, non-ASCII) in every column and position. Also: every literal cell through the file reader (load) as well, blank-line variants, rows that join one run and split another column at once, and hand-made documents beyond the bounds (twelve spines, four levels of nested splits).",
             'Trusted: kv/model.py SpineModel. Bounds: <=3 (thorough 4) spines, column cap 4-6, depth 4/5 for unmerged paths. Merging argument in DESIGN §3 C02.',
             'explicit-state BFS to closure with lock-step refinement check against a reference model + bounded-exhaustive path enumeration', 'DESIGN.md §3 C02'),
     'C09': ("All 25 200 (pitch, interval, direction) edges of the property's grid and all depth-2 paths of the transition graph they induce "
@@ -108,10 +108,10 @@ CHECKS = {
             "letter/semitone model; inverse, unison, octave, fourth+fifth and general composition laws are evaluated on every path. Decided on the stated grid.",
             'Trusted: kv/pitchref.py. Pitches outside octaves 0..8 are reached only as second-step states.', T_GRID, 'DESIGN.md §3 C09'),
     'C11': ("Every query of the category algebra is evaluated on the complete finite grids named by the property (37 categories, 37x37 pairs, 705x705 include/exclude "
-            "pairs of size<=2 incl. None, 37 match targets, all 2^16 unions of top-level categories) and compared with the README tree transcribed by hand; within those grids the property is decided, not sampled.",
+            "pairs of size<=2 incl. None, 37 match targets, all 2^16 unions of top-level categories) and compared with the README tree transcribed by hand; within those grids the property is decided, not sampled. History passes: the same argument object for consecutive calls, a container edited between two match calls, returned sets edited by the caller before asking again.",
             'Trusted: kv/catref.py (hand transcription of the README tree); CPython enum semantics.', T_GRID, 'DESIGN.md §3 C11'),
     'C16': ("All 539 spellings, imported and exported, each exported three times from the same object with a reflection snapshot before/after; all 539^2 histories of length 2 "
-            "through one shared importer and one shared exporter, plus two histories of length 539. Decided on the stated grid.",
+            "through one shared importer and one shared exporter, plus two histories of length 539. Decided on the stated grid. The object returned by an earlier import / given to an earlier export is inspected again after a later call through the same instance.",
             'Trusted: kv/pitchref.py spelling model.', T_GRID + '; history enumeration on shared codec instances', 'DESIGN.md §3 C16'),
 }
 
